@@ -968,7 +968,11 @@ func genAdvBoundary(r *rand.Rand, i int) Scenario {
 		doc := Doc{}
 		terms := []TermOcc{}
 		if d%stride == 0 {
-			terms = append(terms, TermOcc{Term: B([]byte("x")), Freq: 1 + d%3, Locs: []Loc{}})
+			fx := 1 + d%3
+			if d%11 == 0 {
+				fx = 64 * (1 + d%3) // the freq/hasLocs varint gets a second byte whose first byte has no payload bits
+			}
+			terms = append(terms, TermOcc{Term: B([]byte("x")), Freq: fx, Locs: []Loc{}})
 			xs = append(xs, d)
 		}
 		if d >= n/2+7 && d%2 == 0 {
@@ -1071,5 +1075,106 @@ func genFaultLoad(r *rand.Rand, i int) Scenario {
 		Op{Op: "merge", File: 2, In: []int{1, 2}, Drops: []DropSpec{randDropsNotAll(r, len(b1)), randDropsNotAll(r, len(b2))}, Mode: pickMode(r), Buf: 64},
 		Op{Op: "load", File: 2, Seg: 4, Backing: "mem"}, Op{Op: "observe", Seg: 4, Level: "full"},
 		Op{Op: "load_fsweep", File: 2})
+	return sc
+}
+
+// big_dict_merge: merges whose output contains single writes of several kilobytes (a dictionary of 1500+ irregular
+// terms, a postings chunk of a term in 3000 documents) AFTER many small ones (varints, offsets): every merged and
+// re-persisted file's footer CRC covers its bytes (C11, C04)
+func genBigDictMerge(r *rand.Rand, i int) Scenario {
+	mk := func(n, nterms int, tag string) Batch {
+		b := make(Batch, n)
+		seen := map[string]bool{}
+		for d := 0; d < n; d++ {
+			id := []byte(fmt.Sprintf("%s%04d", tag, d))
+			doc := Doc{{Name: "_id", Len: 1, Stored: true, Value: B(id), Terms: []TermOcc{{Term: B(id), Freq: 1, Locs: []Loc{}}}}}
+			terms := []TermOcc{{Term: B([]byte("everywhere")), Freq: 1 + d%3, Locs: []Loc{{Field: "", Pos: 1 + d%5, Start: d, End: d + 3}}}}
+			if d == 0 {
+				for len(terms) < nterms {
+					l := 5 + r.Intn(6)
+					t := make([]byte, l)
+					for k := range t {
+						t[k] = byte('a' + r.Intn(24))
+					}
+					if seen[string(t)] {
+						continue
+					}
+					seen[string(t)] = true
+					terms = append(terms, TermOcc{Term: B(t), Freq: 1, Locs: []Loc{}})
+				}
+			}
+			l := 0
+			for _, t := range terms {
+				l += t.Freq
+			}
+			doc = append(doc, FieldInst{Name: "body", Len: l, Value: Bytes{}, Terms: terms})
+			b[d] = doc
+		}
+		return b
+	}
+	n1 := 1500 + r.Intn(1800)
+	b1, b2 := mk(n1, 1500+r.Intn(800), "p"), mk(2+r.Intn(5), 30, "q")
+	sc := Scenario{Name: fmt.Sprintf("big_dict_merge-%d", i), NormKind: "code", Universe: []string{"_id", "body"}, Batches: []Batch{b1, b2}, Tags: []string{"big_dict_merge"}}
+	drops := []DropSpec{{Kind: "set", Docs: []int{1 + r.Intn(n1-1)}}, {Kind: "nil"}}
+	sc.Ops = append(sc.Ops, Op{Op: "build", Seg: 1, Batch: 0, Mode: 0}, Op{Op: "build", Seg: 2, Batch: 1, Mode: 0},
+		Op{Op: "persist", Seg: 1, File: 1},
+		Op{Op: "merge", File: 2, In: []int{1, 2}, Drops: drops, Mode: 0, Buf: []int{64, 4096, 1 << 20}[i%3]},
+		Op{Op: "load", File: 2, Seg: 3, Backing: []string{"mem", "file"}[i%2]}, Op{Op: "persist", Seg: 3, File: 3},
+		Op{Op: "merge", File: 4, In: []int{3}, Drops: []DropSpec{{Kind: "nil"}}, Mode: 0, Buf: 64},
+		Op{Op: "load", File: 4, Seg: 4, Backing: "mem"},
+		Op{Op: "contains", Seg: 4, Field: "body", Term: B([]byte("everywhere"))},
+		Op{Op: "pl_open", Seg: 4, Field: "body", Term: B([]byte("everywhere")), Pl: 10}, Op{Op: "it_open", Pl: 10, It: 20, Freq: true, Norm: true, Locs: true},
+		Op{Op: "it_next", It: 20}, Op{Op: "it_adv", It: 20, D: n1 / 2}, Op{Op: "it_next", It: 20}, Op{Op: "stored", Seg: 4, N: n1 / 3})
+	return sc
+}
+
+// block_drop: deletions that sit exactly on the first (or last) slot of a 128-document stored block of a merge input
+// (documents 127, 128, 129, 256 ...), merged all at once and stepwise (merge without deletions, then the deletions
+// translated through DocumentNumbers): the same documents under the same numbers (C17, C02, C06)
+func genBlockDrop(r *rand.Rand, i int) Scenario {
+	n0 := []int{3, 1, 128, 5}[i%4]
+	n1 := []int{130, 257, 300, 129}[(i/4)%4]
+	mk := func(n, base int) Batch {
+		b := make(Batch, n)
+		for d := 0; d < n; d++ {
+			id := []byte(fmt.Sprintf("k%04d", base+d))
+			b[d] = Doc{{Name: "_id", Len: 1, Stored: true, Value: B(id), Terms: []TermOcc{{Term: B(id), Freq: 1, Locs: []Loc{}}}},
+				{Name: "body", Len: 1, Stored: true, Value: B([]byte(fmt.Sprintf("val-%04d", base+d))), Terms: []TermOcc{{Term: B([]byte("t")), Freq: 1, Locs: []Loc{}}}}}
+		}
+		return b
+	}
+	sc := Scenario{Name: fmt.Sprintf("block_drop-%d", i), NormKind: "code", Universe: []string{"_id", "body"}, Batches: []Batch{mk(n0, 0), mk(n1, 1000)}, Tags: []string{"block_drop"}}
+	cands := [][]int{{128}, {128, 129}, {127, 128}, {256}, {0, 128}, {127}, {128, 256}}
+	d1 := []int{}
+	for _, x := range cands[(i/2)%len(cands)] {
+		if x < n1 {
+			d1 = append(d1, x)
+		}
+	}
+	if len(d1) == 0 {
+		d1 = []int{128}
+	}
+	drops := []DropSpec{{Kind: "nil"}, {Kind: "set", Docs: d1}}
+	nodrop := []DropSpec{{Kind: "nil"}, {Kind: "nil"}}
+	sc.Ops = append(sc.Ops, Op{Op: "build", Seg: 1, Batch: 0, Mode: 0}, Op{Op: "build", Seg: 2, Batch: 1, Mode: 0})
+	in := []int{1, 2}
+	if i%3 == 2 {
+		sc.Ops = append(sc.Ops, Op{Op: "persist", Seg: 2, File: 1}, Op{Op: "load", File: 1, Seg: 3, Backing: []string{"mem", "file"}[i%2]})
+		in = []int{1, 3}
+	}
+	sc.Ops = append(sc.Ops,
+		Op{Op: "merge", File: 10, In: in, Drops: drops, Mode: 0, Buf: 4096}, Op{Op: "load", File: 10, Seg: 10, Backing: "mem"},
+		Op{Op: "merge", File: 54, In: in, Drops: nodrop, Mode: 0, Buf: 4096}, Op{Op: "load", File: 54, Seg: 54, Backing: "mem"},
+		Op{Op: "merge_translated", File: 55, In: []int{54}, Drops: []DropSpec{{Kind: "translate", Bm: 54}}, Mode: 0, Buf: 64, Nested: &Op{Drops: drops}},
+		Op{Op: "load", File: 55, Seg: 55, Backing: "mem"})
+	total := n0 + n1 - len(d1)
+	for _, seg := range []int{10, 55} {
+		for d := 0; d < total+1; d++ {
+			if d < 2 || d > total-3 || (d%128 >= 124 || d%128 <= 5) {
+				sc.Ops = append(sc.Ops, Op{Op: "stored", Seg: seg, N: d})
+			}
+		}
+	}
+	sc.Ops = append(sc.Ops, Op{Op: "same_obs", In: []int{10, 55}})
 	return sc
 }
